@@ -31,7 +31,7 @@ theorem inv_rotate {cfg : Cfg} {s : St} {d : Disk} (h : Inv cfg s d) {s' : St} {
   simp only [stepWriter, Disk.exec, Disk.apply] at hs
   split at hs
   · rename_i hg
-    obtain ⟨hph, hq, hfz⟩ := hg
+    obtain ⟨hph, hq, hfz, _⟩ := hg
     simp only [Outcome.failed, Bool.false_eq_true, if_false, Option.some.injEq, Prod.mk.injEq] at hs
     obtain ⟨rfl, rfl⟩ := hs
     have hrun := h.run hph
